@@ -20,8 +20,8 @@ const (
 	Replace
 	Drop
 	Err
-	Block // wait on the harness gate, then pass
-	ErrEv // return the event AND an error (the error must still stop the traversal)
+	Block  // wait on the harness gate, then pass
+	ErrEv  // return the event AND an error (the error must still stop the traversal)
 	ErrCtx // fail with the node's own, private timeout: an error that wraps context.DeadlineExceeded
 )
 
@@ -106,18 +106,18 @@ type Node struct {
 	TheErr *NodeErr
 	CtxErr error
 
-	Closes     int
-	Reopens    int
-	CloseErr   error
-	ReopenErr  error
-	OnProcess  func(ctx context.Context, e *el.Event) // optional re-entrancy hook
-	OnClose    func(ctx context.Context)
-	OnReopen   func()
-	NoCloser   bool
-	Yield      bool // scheduling point inside Process (a node takes time)
-	ProbeTag   string // what probe Sends report for this object
-	DumpName   string // canonical name used in state dumps and probe logs (set by the harness)
-	serial     int
+	Closes    int
+	Reopens   int
+	CloseErr  error
+	ReopenErr error
+	OnProcess func(ctx context.Context, e *el.Event) // optional re-entrancy hook
+	OnClose   func(ctx context.Context)
+	OnReopen  func()
+	NoCloser  bool
+	Yield     bool   // scheduling point inside Process (a node takes time)
+	ProbeTag  string // what probe Sends report for this object
+	DumpName  string // canonical name used in state dumps and probe logs (set by the harness)
+	serial    int
 }
 
 func (n *Node) VerifName() string {
